@@ -350,7 +350,41 @@ private theorem post_trans (st st1 st2 : DState) (r1 r2 : List Text)
   · exact b3 t ht
 
 private theorem clean_time : cleanName t!"time.Time" = true := by decide
-private theorem clean_anon : cleanName anonName = true := by decide
+private theorem digitsAux_digits : ∀ (f n : Nat) (acc : Text), (∀ c ∈ acc, 48 ≤ c ∧ c ≤ 57) →
+    ∀ c ∈ digitsAux f n acc, 48 ≤ c ∧ c ≤ 57 := by
+  intro f
+  induction f with
+  | zero => intro n acc h; simpa [digitsAux] using h
+  | succ f ih =>
+    intro n acc h
+    simp only [digitsAux]
+    split
+    · intro c hc
+      rcases List.mem_cons.mp hc with e | e
+      · subst e; omega
+      · exact h c e
+    · apply ih
+      intro c hc
+      rcases List.mem_cons.mp hc with e | e
+      · subst e; omega
+      · exact h c e
+
+private theorem clean_anon (k : Nat) : cleanName (anonName k) = true := by
+  have hd : ∀ c ∈ natDigits k, 48 ≤ c ∧ c ≤ 57 := digitsAux_digits _ _ [] (by simp)
+  have : ∀ c ∈ anonName k, c ≠ 47 ∧ c ≠ 126 ∧ c ≠ 37 := by
+    intro c hc
+    simp only [anonName, List.mem_append] at hc
+    rcases hc with hc | hc
+    · simp only [List.mem_cons, List.not_mem_nil, or_false] at hc
+      rcases hc with e | e | e | e | e | e <;> (subst e; decide)
+    · have := hd c hc; omega
+  have nc : ∀ c, c ∉ anonName k → (anonName k).contains c = false := by
+    intro c h
+    cases hb : (anonName k).contains c with
+    | false => rfl
+    | true => exact absurd (List.contains_iff_mem.mp hb) h
+  simp only [cleanName, Bool.and_eq_true, Bool.not_eq_true']
+  exact ⟨⟨nc 47 (fun h => (this 47 h).1 rfl), nc 126 (fun h => (this 126 h).2.1 rfl)⟩, nc 37 (fun h => (this 37 h).2.2 rfl)⟩
 
 /-- a struct-kind type that is visited for the first time: the common part of `time`, anonymous and named structs -/
 private theorem post_struct (st : DState) (k : GoType) (n : Text)
@@ -390,8 +424,8 @@ private theorem genD_post (exp : Text → DState → Sch × DState) (hexp : ExpO
       intro t ht
       simp only [defsRef, refsOf, List.mem_singleton] at ht
       exact ⟨n, lookupVisited_mem _ _ _ hl, ht⟩
-    · exact post_struct st (.struct fs) anonName _
-        (genDFields_post exp hexp fs _ (inv_visit st (.struct fs) anonName clean_anon h))
+    · exact post_struct st (.struct fs) (anonName st.visited.length) _
+        (genDFields_post exp hexp fs _ (inv_visit st (.struct fs) (anonName st.visited.length) (clean_anon _) h))
   | .slice e, st, h => by simp only [genD, refsOf]; exact genD_post exp hexp e st h
   | .array _ e, st, h => by simp only [genD, refsOf]; exact genD_post exp hexp e st h
   | .map e, st, h => by simp only [genD, refsOf]; exact genD_post exp hexp e st h
